@@ -59,6 +59,25 @@ def writer_pairs(repo, folder) -> Dict[str, Tuple[str, ast.AST]]:
                 if a.endswith("_raw"):
                     a = a[:-4]
                 out.setdefault(a, (key, c))
+    # decided by specialisation where possible: the option whose written text changes when (only) the attribute changes
+    probes = {"name": ("Probe", "Other"), "data_type": (5, 6), "access_type": ("rw", "ro"), "default": (16, 17), "value": (3, 4), "pdo_mappable": (False, True),
+              "min": (1, 2), "max": (9, 8), "description": ("d1", "d2"), "factor": (2.5, 3.5), "unit": ("u1", "u2"), "storage_location": ("RAM", "ROM")}
+    ev = [n for n in ast.walk(f.node) if isinstance(n, ast.FunctionDef) and n.name == "export_variable"]
+    for attr, (v1, v2) in probes.items():
+        w1, w2 = export_writes(repo, folder, {attr: v1}, True), export_writes(repo, folder, {attr: v2}, True)
+        if w1[0] != "writes" or w2[0] != "writes":
+            continue
+        k1, k2 = {}, {}
+        for _s, k, v in w1[1]:
+            k1.setdefault(k, []).append(v)
+        for _s, k, v in w2[1]:
+            k2.setdefault(k, []).append(v)
+        diff = sorted(k for k in set(k1) | set(k2) if k1.get(k) != k2.get(k))
+        if len(diff) == 1:
+            node = out[attr][1] if attr in out and out[attr][0] == diff[0] else (ev[0] if ev else f.node)
+            out[attr] = (diff[0], node)
+        elif not diff:
+            out.pop(attr, None)
     return out
 
 
@@ -70,3 +89,48 @@ def signed_widths(repo, folder):
         code, kind, bits, signed = O.DATA_TYPES[name]
         res[name] = (bits, partial_eval(folder, f.node, f.mod, None, {f.params[0]: code}))
     return f, res
+
+
+# ------------------------------------------------------------------------------------------------ the exporter, specialised
+ABSENT = object()
+_BASE_VAR = {"name": "Probe", "index": 0x2000, "subindex": 0, "data_type": 0x0005, "access_type": "rw", "pdo_mappable": False,
+             "storage_location": None, "min": None, "max": None, "description": "", "factor": 1, "unit": "", "default": None, "value": None,
+             "bit_definitions": {}, "value_descriptions": {}}
+
+
+def export_writes(repo, folder, attrs: Dict[str, object], device_commisioning: bool, top_level: bool = True):
+    """What export_variable writes for one ODVariable, by specialising export_variable (and what it calls) for a probe object:
+    `attrs` overrides the fields of a plain UNSIGNED8 variable, the value ABSENT removes the attribute (default_raw / value_raw only
+    exist on imported variables).  Returns ('writes', [(section, option, value), ...]) in program order, ('raise', name) or
+    ('unknown', why).  Nothing runs: this is constant folding over the functions' own syntax with the fields bound."""
+    from ..fold import RecordVal
+    f = repo.func(E, "export_eds", "C14.R1")
+    nested = {n.name: n for n in ast.walk(f.node) if isinstance(n, ast.FunctionDef) and n is not f.node}
+    aliases = {n.targets[0].id: n.value.id for n in ast.walk(f.node) if isinstance(n, ast.Assign) and len(n.targets) == 1 and isinstance(n.targets[0], ast.Name)
+               and isinstance(n.value, ast.Name) and n.value.id in nested}
+    funcs = {n.name: n for n in f.mod.tree.body if isinstance(n, ast.FunctionDef)}
+    funcs.update(nested)
+    funcs.update({a: nested[t] for a, t in aliases.items()})
+    ev = nested.get("export_variable")
+    if ev is None or len(ev.args.args) < 2:
+        return ("unknown", "no export_variable(var, eds)")
+    fields = dict(_BASE_VAR)
+    fields.update(attrs)
+    fields = {k: v for k, v in fields.items() if v is not ABSENT}
+    parent = RecordVal({}, isa=("ObjectDictionary",) if top_level else ("ODRecord",))
+    fields["parent"] = parent
+    var = RecordVal(fields, isa=("ODVariable",))
+    log: List[tuple] = []
+    eds_name = ev.args.args[1].arg
+    # the document object is only ever the receiver of set/add_section: every name it travels under is a recorded callee
+    names = {eds_name, "eds"} | {fn.args.args[i].arg for fn in nested.values() for i in range(len(fn.args.args)) if fn.args.args[i].arg.startswith("eds")}
+    callees = {f"{n}.{m}" for n in names for m in ("set", "add_section")}
+    env = {ev.args.args[0].arg: var, eds_name: RecordVal({}, isa=("RawConfigParser",))}
+    r = partial_eval(folder, ev, f.mod, None, env, funcs, 0, (callees, log), {"device_commisioning": device_commisioning})
+    if r[0] != "return":
+        return r
+    out = []
+    for nm, args in log:
+        if nm.endswith(".set") and len(args) == 3:
+            out.append(args)
+    return ("writes", out)
